@@ -12,7 +12,9 @@
      - a `switch` may jump to any of its cases (to `default` when nothing matches),
        and past all of them when it has no `default`; evaluating a case test that is a call may throw;
      - a nested function may be called by anyone, so its body may be entered, and
-       evaluating a function declaration / arrow expression completes normally.
+       evaluating a function declaration / arrow expression / object literal with a getter
+       completes normally; the same holds for a function-like in the head of a for-in/of
+       (a default value of the binding pattern), once the loop statement is reached.
    Executions carry no state, so every loop iteration has the same possible outcomes. *)
 From V Require Export CF.Syntax.
 
@@ -32,7 +34,7 @@ Definition loop_shape (s : stmt) : option (cond * stmt * cond) :=
   | SDoWhile _ b c => Some (CTrue, b, c)
   | SFor _ (Some c) b => Some (c, b, CTrue)
   | SFor _ None b => Some (CTrue, b, CTrue)
-  | SForIn _ b | SForOf _ b => Some (opaque, b, CTrue)
+  | SForIn _ b | SForOf _ b | SForHead _ _ _ _ _ b => Some (opaque, b, CTrue)
   | _ => None
   end.
 
@@ -63,6 +65,7 @@ Inductive exec : list N -> stmt -> completion -> Prop :=
 | X_var_thr ls p v i : oe_throws i = true -> exec ls (SVar p v i) Thr
 | X_fndecl ls p n pb b : exec ls (SFnDecl p n pb b) Normal
 | X_arrow ls p pb b : exec ls (SArrowStmt p pb b) Normal
+| X_getter ls p gp pb b : exec ls (SGetterStmt p gp pb b) Normal
 | X_ret ls p a : exec ls (SRet p a) Ret
 | X_ret_thr ls p a : oe_throws a = true -> exec ls (SRet p a) Thr
 | X_throw ls p e : exec ls (SThrow p e) Thr
@@ -131,6 +134,8 @@ Inductive enters : stmt -> N -> Prop :=
 | N_self s : enters s (pos s)
 | N_fndecl p n pb b pi : enters_l b pi -> enters (SFnDecl p n pb b) pi
 | N_arrow p pb b pi : enters_l b pi -> enters (SArrowStmt p pb b) pi
+| N_getter p gp pb b pi : enters_l b pi -> enters (SGetterStmt p gp pb b) pi
+| N_forhead p g fp pb hb b pi : enters_l hb pi -> enters (SForHead p g fp pb hb b) pi
 | N_block p b pi : enters_l b pi -> enters (SBlock p b) pi
 | N_if p c a pi : may_true c = true -> enters a pi -> enters (SIf p c a) pi
 | N_ifelse_then p c a b pi : may_true c = true -> enters a pi -> enters (SIfElse p c a b) pi
@@ -170,6 +175,8 @@ Inductive sub_stmt : stmt -> stmt -> Prop :=
 | Sub_self s : sub_stmt s s
 | Sub_fndecl t p n pb b : sub_stmts t b -> sub_stmt t (SFnDecl p n pb b)
 | Sub_arrow t p pb b : sub_stmts t b -> sub_stmt t (SArrowStmt p pb b)
+| Sub_getter t p gp pb b : sub_stmts t b -> sub_stmt t (SGetterStmt p gp pb b)
+| Sub_forhead t p g fp pb hb b : sub_stmts t hb -> sub_stmt t (SForHead p g fp pb hb b)
 | Sub_block t p b : sub_stmts t b -> sub_stmt t (SBlock p b)
 | Sub_if t p c a : sub_stmt t a -> sub_stmt t (SIf p c a)
 | Sub_ifelse1 t p c a b : sub_stmt t a -> sub_stmt t (SIfElse p c a b)
